@@ -352,13 +352,13 @@ func main() {
 					wg.Add(1)
 					go func(j *job) {
 						defer wg.Done()
-						if time.Now().After(deadline) {
-							j.skipped = true // the budget ran out in the middle of this level
-							return
-						}
 						keys := append(append([]byte{}, j.n.Path...), j.tok.Keys...)
 						b, _ := json.Marshal(request{j.n.Start, keys, g[0], g[1], g[2]})
-						pr := pool.Call(b)
+						pr, ran := pool.CallBefore(deadline, b)
+						if !ran {
+							j.skipped = true // the budget ran out before a worker was free for this transition
+							return
+						}
 						if pr.Died {
 							j.died, j.diedLog = true, pr.Log
 							return
